@@ -1,1 +1,15 @@
 import SwcVerif.Props.C06
+#print axioms C06.toSubTopology_spec
+#print axioms C06.toSubTopology_ok_iff
+#print axioms C06.attrs_preserved
+#print axioms C06.subtree_nodes
+#print axioms C06.propagate_marks
+#print axioms C06.removedSet_all
+#print axioms C06.removedSet_sound
+#print axioms C06.toSubtree_kept
+#print axioms C06.cutEnter_removed
+#print axioms C06.cutLeave_removed
+#print axioms C06.cutByType_kept
+#print axioms C06.cutByOrder_rule
+#print axioms C06.isFurcation_iff
+#print axioms C06.cutShortTip_removed
